@@ -44,7 +44,7 @@ RPC_EXEMPT = {'next_from_generator': 'legacy stub: no server binding and no'
 
 
 def run(ctx: Ctx):
-  for r in (r1, r2, r3, r4, r5, r6, r7, r9, r13, r14, r15, r16, r17, r18, r19, r20, r21, r23):
+  for r in (r1, r2, r3, r4, r5, r6, r7, r9, r13, r14, r15, r16, r17, r18, r19, r20, r21, r23, r25):
     ctx.guard(r)
   from mlmverif.props import c15
   ctx.include('R-C14-22', '"signal exhaustion once ... rather than returning a wrong value": the end of a prefetched stream is a'
@@ -1078,11 +1078,41 @@ def r23(ctx: Ctx):
   ctx.floor(rule, 2, n)
 
 
+def r25(ctx: Ctx):
+  rule = 'R-C14-25'
+  ctx.rule(rule, '"remote iterators and remote queues yield exactly the underlying elements in order and signal exhaustion once": the'
+           ' remote queue CourierClient.async_iter builds on the server is configured with the caller\'s own parameters —'
+           ' the method never re-binds a parameter (`timeout = self.call_timeout or None` when none was given). A queue'
+           ' timeout also bounds the PRODUCER\'s put() on a full buffer: a consumer that pauses longer than the client\'s'
+           ' call timeout makes the server-side enqueue fail, the buffered elements are dropped and the stream ends with'
+           ' TimeoutError instead of its remaining elements')
+  ci = ctx.repo.cls(CU, 'CourierClient')
+  n = 0
+  for name in ('async_iter',):
+    fi = ci.methods.get(name)
+    if fi is None:
+      raise AnalysisError(f'{rule}: CourierClient.{name} not found')
+    ps = set(fi.params()[1:])
+    n += 1
+    rebinds = [x for x in walk_no_nested(fi.node) if isinstance(x, (ast.Assign, ast.AugAssign, ast.AnnAssign)) and any(
+        isinstance(t, ast.Name) and t.id in ps for t in (x.targets if isinstance(x, ast.Assign) else [x.target]))]
+    what = f'CourierClient.{name}: the remote queue gets the caller\'s parameters as given'
+    if rebinds:
+      ctx.fail(rule, fi, what,
+               f'`{unparse(rebinds[0])[:70]}` replaces a parameter before the remote queue is built: the server-side queue is'
+               ' configured with a value the caller never chose', node=rebinds[0])
+    else:
+      ctx.ok(rule, fi, what, fi.node)
+  ctx.floor(rule, 1, n)
+
+
 from mlmverif.selfcheck import B, OK  # noqa: E402
 
 _S = 'chainables/courier_server.py'
 _U = 'utils/courier_utils.py'
 VARIANTS = [
+    B('remote-queue-timeout-defaults-to-the-call-timeout', 'utils/courier_utils.py',
+      '    """Async iterates the generator task."""\n    # Create a queue at the worker', '    """Async iterates the generator task."""\n    if timeout is None:\n      timeout = self.call_timeout or None\n    # Create a queue at the worker', 'R-C14-25'),
     B('recorded-kwargs-sorted-by-name', 'chainables/lazy_fns.py',
       "        kwargs=tuple((kwargs or {}).items()),", "        kwargs=tuple(sorted((kwargs or {}).items(), key=lambda kv: kv[0])),", 'R-C14-26'),
     OK('remote-call-through-a-local-lazy', 'utils/courier_utils.py',
